@@ -1,4 +1,267 @@
-import Walleye.Model.MoveGen
+/-
+  C14 — static evaluation is colour-symmetric, side-relative and bounded.
+  Headline theorems only (helpers: Proofs/Eval.lean).  All statements quantify over every board
+  (any material, legal or not); the tables are the ones regenerated from evaluation.rs (T1).
+-/
+import Walleye.Proofs.Eval
 namespace Walleye
-theorem C14_placeholder (c : Color) : c.opp.opp = c := Color.opp_opp c
+
+/-! ### the result depends on nothing but the 64 squares and the side to move -/
+
+theorem contrib_congr (b b' : Board) (pt : Point) (h : b.get pt.row pt.col = b'.get pt.row pt.col) :
+    contrib b pt = contrib b' pt := by
+  unfold contrib; rw [h]
+
+theorem eval_depends (p q : Pos)
+    (hb : ∀ pt ∈ evalCoords, p.board.get pt.row pt.col = q.board.get pt.row pt.col)
+    (hs : p.toMove = q.toMove) : getEvaluation p = getEvaluation q := by
+  rw [getEvaluation_eq, getEvaluation_eq, hs]
+  congr 1
+  unfold sums
+  have : ∀ (f : Contrib → Int), (evalCoords.map fun pt => f (contrib p.board pt)) =
+      (evalCoords.map fun pt => f (contrib q.board pt)) := by
+    intro f
+    apply List.map_congr_left
+    intro pt hpt
+    rw [contrib_congr _ _ pt (hb pt hpt)]
+  rw [this (·.wmg), this (·.bmg), this (·.weg), this (·.beg), this (·.phase)]
+
+/-- in particular: rights, en passant target, king caches, key and descriptors are irrelevant -/
+theorem eval_ignores_other_fields (p q : Pos) (hb : p.board = q.board) (hs : p.toMove = q.toMove) :
+    getEvaluation p = getEvaluation q :=
+  eval_depends p q (fun _ _ => by rw [hb]) hs
+
+/-! ### the same placement with the other side to move: negated -/
+
+theorem evalFinish_opp (acc : EvalAcc) (c : Color) : evalFinish acc c.opp = - evalFinish acc c := by
+  unfold evalFinish
+  cases c <;> simp only [Color.opp] <;> rw [← Int.neg_tdiv] <;> congr 1 <;>
+    simp only [Int.neg_add, ← Int.neg_mul] <;> congr 2 <;> omega
+
+theorem eval_flip_side (p : Pos) :
+    getEvaluation { p with toMove := p.toMove.opp } = - getEvaluation p := by
+  rw [getEvaluation_eq, getEvaluation_eq]
+  exact evalFinish_opp _ _
+
+/-! ### colour mirror: ranks flipped, colours swapped, side swapped -/
+
+def Square.swapColor : Square → Square
+  | .full ⟨c, k⟩ => .full ⟨c.opp, k⟩
+  | s => s
+
+/-- board built from a function -/
+def Board.ofFn (f : Nat → Nat → Square) : Board :=
+  ⟨Array.ofFn (n := 144) fun i => f (i.val / 12) (i.val % 12), by simp⟩
+
+theorem Board.get_ofFn (f : Nat → Nat → Square) (r c : Nat) (hr : r < 12) (hc : c < 12) :
+    (Board.ofFn f).get r c = f r c := by
+  unfold Board.get Board.ofFn
+  simp only [hr, hc, and_self, dite_true, Array.getElem_ofFn]
+  have h1 : (r * 12 + c) / 12 = r := by omega
+  have h2 : (r * 12 + c) % 12 = c := by omega
+  rw [h1, h2]
+
+/-- row r ↦ row 11 - r (rank 1 ↔ rank 8 in the 12x12 frame), colours swapped -/
+def mirrorBoard (b : Board) : Board := Board.ofFn fun r c => (b.get (11 - r) c).swapColor
+
+def mirrorPos (p : Pos) : Pos := { p with board := mirrorBoard p.board, toMove := p.toMove.opp }
+
+def Contrib.swap (x : Contrib) : Contrib := ⟨x.bmg, x.wmg, x.beg, x.weg, x.phase⟩
+
+/-- a mirrored piece reads the same table cell: white reads row-2, black reads 9-row -/
+theorem contrib_mirror (b : Board) (i j : Nat) (hi : i < 8) (hj : j < 8) :
+    contrib (mirrorBoard b) ⟨i + 2, j + 2⟩ = (contrib b ⟨9 - i, j + 2⟩).swap := by
+  unfold contrib mirrorBoard
+  rw [Board.get_ofFn _ _ _ (by show i + 2 < 12; omega) (by show j + 2 < 12; omega)]
+  have e : 11 - (i + 2) = 9 - i := by omega
+  simp only [e]
+  cases h : b.get (9 - i) (j + 2) with
+  | empty => simp [Square.swapColor, Contrib.swap]
+  | boundary => simp [Square.swapColor, Contrib.swap]
+  | full pc =>
+    obtain ⟨c, k⟩ := pc
+    have e1 : i + 2 - Gen.boardStart = Gen.blackRowFlip - (9 - i) := by
+      simp only [Gen.boardStart, Gen.blackRowFlip]; omega
+    have e2 : Gen.blackRowFlip - (i + 2) = 9 - i - Gen.boardStart := by
+      simp only [Gen.boardStart, Gen.blackRowFlip]; omega
+    cases c <;> simp [Square.swapColor, Contrib.swap, Color.opp, e1, e2]
+
+def rowSum (f : Contrib → Int) (b : Board) (i : Nat) : Int :=
+  ((List.range 8).map fun j => f (contrib b ⟨i + 2, j + 2⟩)).sum
+
+theorem sum_flatMap {α β : Type} (l : List α) (g : α → List β) (h : β → Int) :
+    ((l.flatMap g).map h).sum = (l.map fun i => ((g i).map h).sum).sum := by
+  induction l with
+  | nil => simp
+  | cons x xs ih => simp [List.flatMap_cons, List.sum_append_int, ih]
+
+theorem sum_evalCoords (f : Contrib → Int) (b : Board) :
+    (evalCoords.map fun pt => f (contrib b pt)).sum = ((List.range 8).map (rowSum f b)).sum := by
+  unfold evalCoords
+  rw [sum_flatMap]
+  congr 1
+
+theorem rowSum_mirror (f : Contrib → Int) (b : Board) (i : Nat) (hi : i < 8) :
+    rowSum f (mirrorBoard b) i = rowSum (fun x => f x.swap) b (7 - i) := by
+  unfold rowSum
+  congr 1
+  apply List.map_congr_left
+  intro j hj
+  have hj' : j < 8 := List.mem_range.mp hj
+  rw [contrib_mirror b i j hi hj']
+  have : 9 - i = 7 - i + 2 := by omega
+  rw [this]
+
+theorem sum_mirror (f : Contrib → Int) (b : Board) :
+    (evalCoords.map fun pt => f (contrib (mirrorBoard b) pt)).sum =
+      (evalCoords.map fun pt => f (contrib b pt).swap).sum := by
+  rw [sum_evalCoords f, sum_evalCoords (fun x => f x.swap)]
+  have hr : ∀ i, i < 8 → rowSum f (mirrorBoard b) i = rowSum (fun x => f x.swap) b (7 - i) :=
+    fun i hi => rowSum_mirror f b i hi
+  simp only [List.range, List.range.loop, List.map_cons, List.map_nil, List.sum_cons, List.sum_nil]
+  rw [hr 0 (by omega), hr 1 (by omega), hr 2 (by omega), hr 3 (by omega), hr 4 (by omega), hr 5 (by omega),
+    hr 6 (by omega), hr 7 (by omega)]
+  simp only [Nat.sub_zero, Nat.reduceSub]
+  omega
+
+theorem sums_mirror (b : Board) :
+    sums (mirrorBoard b) =
+      { wmg := (sums b).bmg, bmg := (sums b).wmg, weg := (sums b).beg, beg := (sums b).weg, phase := (sums b).phase } := by
+  unfold sums
+  simp only [sum_mirror (·.wmg), sum_mirror (·.bmg), sum_mirror (·.weg), sum_mirror (·.beg), sum_mirror (·.phase),
+    Contrib.swap]
+
+/-- evaluating a position and its colour-mirrored twin gives the same number — for ANY tables -/
+theorem eval_mirror (p : Pos) : getEvaluation (mirrorPos p) = getEvaluation p := by
+  rw [getEvaluation_eq, getEvaluation_eq]
+  unfold mirrorPos
+  simp only [sums_mirror]
+  unfold evalFinish
+  cases p.toMove <;> simp [Color.opp]
+
+/-! ### magnitude: far below the mate range -/
+
+/-- largest magnitude of one square's (white − black) contribution, middle game and end game -/
+def cellBound : Int := 1100
+
+theorem tbl_bound_mg (k : Kind) (r c : Nat) (hr : r < 8) (hc : c < 8) :
+    (tbl (Gen.mgTable k) r c + Gen.mgPieceVal k).natAbs ≤ 1100 := by
+  have key : ∀ k : Kind, ∀ r : Fin 8, ∀ c : Fin 8,
+      (tbl (Gen.mgTable k) r.val c.val + Gen.mgPieceVal k).natAbs ≤ 1100 := by
+    intro k; cases k <;> decide +kernel
+  exact key k ⟨r, hr⟩ ⟨c, hc⟩
+
+theorem tbl_bound_eg (k : Kind) (r c : Nat) (hr : r < 8) (hc : c < 8) :
+    (tbl (Gen.egTable k) r c + Gen.egPieceVal k).natAbs ≤ 1100 := by
+  have key : ∀ k : Kind, ∀ r : Fin 8, ∀ c : Fin 8,
+      (tbl (Gen.egTable k) r.val c.val + Gen.egPieceVal k).natAbs ≤ 1100 := by
+    intro k; cases k <;> decide +kernel
+  exact key k ⟨r, hr⟩ ⟨c, hc⟩
+
+theorem phase_nonneg (k : Kind) : 0 ≤ Gen.gamePhaseVal k := by cases k <;> decide
+
+theorem mem_evalCoords (pt : Point) (h : pt ∈ evalCoords) :
+    2 ≤ pt.row ∧ pt.row ≤ 9 ∧ 2 ≤ pt.col ∧ pt.col ≤ 9 := by
+  unfold evalCoords at h
+  simp only [List.mem_flatMap, List.mem_map, List.mem_range] at h
+  obtain ⟨i, hi, j, hj, rfl⟩ := h
+  simp only; omega
+
+theorem contrib_bounds (b : Board) (pt : Point) (hpt : pt ∈ evalCoords) :
+    ((contrib b pt).wmg - (contrib b pt).bmg).natAbs ≤ 1100 ∧
+    ((contrib b pt).weg - (contrib b pt).beg).natAbs ≤ 1100 ∧ 0 ≤ (contrib b pt).phase := by
+  obtain ⟨h1, h2, h3, h4⟩ := mem_evalCoords pt hpt
+  unfold contrib
+  cases h : b.get pt.row pt.col with
+  | empty => simp
+  | boundary => simp
+  | full pc =>
+    obtain ⟨c, k⟩ := pc
+    cases c
+    · simp only [Int.sub_zero]
+      exact ⟨tbl_bound_mg k _ _ (by simp only [Gen.boardStart]; omega) (by simp only [Gen.boardStart]; omega),
+             tbl_bound_eg k _ _ (by simp only [Gen.boardStart]; omega) (by simp only [Gen.boardStart]; omega), phase_nonneg k⟩
+    · simp only [Int.zero_sub, Int.natAbs_neg]
+      exact ⟨tbl_bound_mg k _ _ (by simp only [Gen.blackRowFlip]; omega) (by simp only [Gen.boardStart]; omega),
+             tbl_bound_eg k _ _ (by simp only [Gen.blackRowFlip]; omega) (by simp only [Gen.boardStart]; omega), phase_nonneg k⟩
+
+theorem sum_sub_bound (l : List Point) (f g : Point → Int) (B : Nat)
+    (h : ∀ pt ∈ l, (f pt - g pt).natAbs ≤ B) :
+    ((l.map f).sum - (l.map g).sum).natAbs ≤ l.length * B := by
+  induction l with
+  | nil => simp
+  | cons x xs ih =>
+    simp only [List.map_cons, List.sum_cons, List.length_cons]
+    have := h x (by simp)
+    have ih := ih (fun pt hp => h pt (by simp [hp]))
+    have e : f x + (xs.map f).sum - (g x + (xs.map g).sum) = (f x - g x) + ((xs.map f).sum - (xs.map g).sum) := by omega
+    rw [e]
+    have := Int.natAbs_add_le (f x - g x) ((xs.map f).sum - (xs.map g).sum)
+    have : (xs.length + 1) * B = xs.length * B + B := by rw [Nat.add_mul]; simp
+    omega
+
+theorem sum_nonneg (l : List Point) (f : Point → Int) (h : ∀ pt ∈ l, 0 ≤ f pt) : 0 ≤ (l.map f).sum := by
+  induction l with
+  | nil => simp
+  | cons x xs ih =>
+    simp only [List.map_cons, List.sum_cons]
+    have := h x (by simp)
+    have := ih (fun pt hp => h pt (by simp [hp]))
+    omega
+
+theorem evalCoords_length : evalCoords.length = 64 := by decide
+
+/-- |mg·φ + eg·(24−φ)| / 24 ≤ B when |mg|,|eg| ≤ B and 0 ≤ φ ≤ 24 -/
+theorem taper_bound (mg eg ph : Int) (B : Nat) (hmg : mg.natAbs ≤ B) (heg : eg.natAbs ≤ B)
+    (h0 : 0 ≤ ph) (h24 : ph ≤ 24) : (Int.tdiv (mg * ph + eg * (24 - ph)) 24).natAbs ≤ B := by
+  rw [Int.natAbs_tdiv]
+  have h1 : (mg * ph).natAbs ≤ B * ph.natAbs := by rw [Int.natAbs_mul]; exact Nat.mul_le_mul_right _ hmg
+  have h2 : (eg * (24 - ph)).natAbs ≤ B * (24 - ph).natAbs := by
+    rw [Int.natAbs_mul]; exact Nat.mul_le_mul_right _ heg
+  have h3 := Int.natAbs_add_le (mg * ph) (eg * (24 - ph))
+  have h4 : ph.natAbs + (24 - ph).natAbs = 24 := by omega
+  have h5 : B * ph.natAbs + B * (24 - ph).natAbs = B * 24 := by rw [← Nat.mul_add, h4]
+  have h6 : (mg * ph + eg * (24 - ph)).natAbs ≤ B * 24 := by omega
+  show (mg * ph + eg * (24 - ph)).natAbs / (24 : Int).natAbs ≤ B
+  have : (24 : Int).natAbs = 24 := rfl
+  rw [this]
+  exact Nat.div_le_of_le_mul (by omega)
+
+/-- for EVERY board (any material, any squares) the evaluation stays below 64·1100 = 70 400,
+    far from the mate range that starts at MATE_SCORE − 15 -/
+theorem eval_bound (p : Pos) : (getEvaluation p).natAbs ≤ 70400 := by
+  rw [getEvaluation_eq]
+  have hb := fun pt hpt => contrib_bounds p.board pt hpt
+  have hmg := sum_sub_bound evalCoords (fun pt => (contrib p.board pt).wmg) (fun pt => (contrib p.board pt).bmg) 1100
+    (fun pt hpt => (hb pt hpt).1)
+  have heg := sum_sub_bound evalCoords (fun pt => (contrib p.board pt).weg) (fun pt => (contrib p.board pt).beg) 1100
+    (fun pt hpt => (hb pt hpt).2.1)
+  have hph := sum_nonneg evalCoords (fun pt => (contrib p.board pt).phase) (fun pt hpt => (hb pt hpt).2.2)
+  rw [evalCoords_length] at hmg heg
+  unfold evalFinish sums
+  simp only [Gen.phaseClampAt, Gen.phaseClampTo, Gen.phaseTotal, Gen.phaseDiv]
+  generalize (List.map (fun pt => (contrib p.board pt).wmg) evalCoords).sum = W at *
+  generalize (List.map (fun pt => (contrib p.board pt).bmg) evalCoords).sum = B at *
+  generalize (List.map (fun pt => (contrib p.board pt).weg) evalCoords).sum = WE at *
+  generalize (List.map (fun pt => (contrib p.board pt).beg) evalCoords).sum = BE at *
+  generalize (List.map (fun pt => (contrib p.board pt).phase) evalCoords).sum = ph at *
+  have hneg : ∀ a b : Int, (b - a).natAbs = (a - b).natAbs := by intro a b; omega
+  by_cases hc : ph > 24
+  · simp only [hc, if_true]
+    cases p.toMove <;> simp only <;> apply taper_bound _ _ 24 70400 <;> first | omega | (rw [hneg]; omega)
+  · simp only [hc, if_false]
+    cases p.toMove <;> simp only <;> apply taper_bound _ _ ph 70400 <;> first | omega | (rw [hneg]; omega)
+
+/-- so a material evaluation can never be mistaken for, or outrank, a mate score -/
+theorem eval_below_mate_range (p : Pos) :
+    -(Gen.mateScore - Gen.mateWindow) < getEvaluation p ∧ getEvaluation p < Gen.mateScore - Gen.mateWindow := by
+  have := eval_bound p
+  simp only [Gen.mateScore, Gen.mateWindow]
+  omega
+
+/-! ### non-vacuity: the mirror of a concrete position is a different position with the same value -/
+example : (mirrorBoard ((default : Board).set 3 4 (Square.full ⟨.white, .queen⟩))).get 8 4
+    = Square.full ⟨.black, .queen⟩ := by
+  decide
+
 end Walleye
